@@ -192,6 +192,9 @@ pub struct Sim {
     completed: usize,
     /// set when a non-scripted panic escaped a task
     pub unexpected_panics: Vec<(usize, String)>,
+    /// set when an instant did not quiesce: the code under test keeps doing things without time
+    /// passing (e.g. an unbounded retry loop with a zero delay). Sticky: no further polling.
+    pub livelock: bool,
 }
 
 const SPIN_CAP: u32 = 3;
@@ -205,6 +208,7 @@ impl Sim {
             order: Order::new(order),
             completed: 0,
             unexpected_panics: Vec::new(),
+            livelock: false,
         }
     }
 
@@ -346,12 +350,25 @@ impl Sim {
             s.spin = 0;
             s.spin_epoch = usize::MAX;
         }
+        if self.livelock {
+            return;
+        }
         let mut quiet = 0;
         let mut guard = 0u32;
+        let log_at_start = self.log.len();
         loop {
             guard += 1;
-            if guard > 200_000 {
-                panic!("sim::settle: no quiescence after 200000 rounds (harness livelock)");
+            if guard > 50_000 || self.log.len() > log_at_start + 20_000 {
+                // reported by every property as a violation (through `unexpected_panics`)
+                self.livelock = true;
+                self.unexpected_panics.push((
+                    usize::MAX,
+                    format!(
+                        "no quiescence at t={} ms after 50000 polls / 20000 events in one instant: unbounded activity without time passing",
+                        now()
+                    ),
+                ));
+                return;
             }
             let woken = self.woken();
             if woken.is_empty() {
@@ -370,6 +387,10 @@ impl Sim {
             quiet = 0;
             let k = self.order.pick(woken.len());
             self.poll_task(woken[k]);
+            // Return to tokio after every caller poll: each poll then starts with a fresh cooperative
+            // budget, as a poll of a real task would (otherwise all hand-polled callers would share
+            // the root future's budget of 128 operations), and library-spawned tasks get to run.
+            tokio::task::yield_now().await;
         }
     }
 
